@@ -2,7 +2,8 @@
  *
  * connect cases:  <t|p> ; ops ; beh0 | beh1 | ... ; script
  *   one uv_tcp_t (t) or uv_pipe_t (p) per case
- *   ops: Tl|Tc   uv_tcp_connect to the harness's listening port / to a closed port
+ *   ops: Tl|Tc|Th  uv_tcp_connect to the harness's listening port / to a closed port / to a listener whose
+ *                 accept queue is full (the handshake stays incomplete)
  *        B       uv_tcp_bind to the (busy) address of the harness's listener
  *        Pl|Pm|Po|Pe|Pn|Pf  uv_pipe_connect (void) to: listening path, missing path,
  *                           over-long path, "", a regular file, a listener whose backlog is full
@@ -66,7 +67,7 @@ static FILE *slog, *clog_, *glog, *evlog; static char *slog_b, *clog_b, *glog_b,
 static int listener = -1, lport, ulistener = -1, cport, flistener = -1;
 static char fpath[160];
 static FILE* vlog; static char* vlog_b; static size_t vlog_n; static int unclaimed;
-static int aux_out, g_now, ever_connected;       /* write/shutdown requests of the script still outstanding; shutdown/read_start done */
+static int aux_out, g_now, ever_connected, hport, g_slow, in_wcb;       /* write/shutdown requests of the script still outstanding; shutdown/read_start done */
 static char upath[160], missing[160], overlong[512], regfile[160];
 /* write2 part */
 static int w_fd = -1; static FILE* wlog; static char* wlog_b; static size_t wlog_n; static int w_logged;
@@ -175,14 +176,15 @@ static void connect_cb(uv_connect_t* r, int status) {
   printf("k%d:%d ", ((struct creq*) r)->id, status);
   run_beh();
 }
-static void aux_write_cb(uv_write_t* r, int st) { (void) st; aux_out--; free(r); }
-static void aux_shutdown_cb(uv_shutdown_t* r, int st) { (void) st; aux_out--; free(r); }
+static void aux_write_cb(uv_write_t* r, int st) { (void) st; aux_out--; free(r); if (!g_quiet) { printf("v "); in_wcb++; run_beh(); in_wcb--; } }
+static void aux_shutdown_cb(uv_shutdown_t* r, int st) { (void) st; aux_out--; free(r); if (!g_quiet) printf("y "); }
 static void aux_alloc_cb(uv_handle_t* hd, size_t sz, uv_buf_t* b) { static char rb[4096]; (void) hd; (void) sz; *b = uv_buf_init(rb, sizeof rb); }
 static void aux_read_cb(uv_stream_t* st, ssize_t n, const uv_buf_t* b) { (void) st; (void) n; (void) b; }
-/* uv_write / uv_shutdown / uv_read_start are issued only with a descriptor, no connect pending, not closing */
-static int aux_allowed(void) {
+/* uv_write / uv_shutdown: with a descriptor, not closing (also while a connect is pending);
+ * uv_read_start additionally only with no connect pending */
+static int aux_allowed(int need_idle) {
   uv_os_fd_t fd = -1;
-  return !g_closing && uv_fileno(&h.handle, &fd) == 0 && h.stream.connect_req == NULL;
+  return !g_closing && uv_fileno(&h.handle, &fd) == 0 && (!need_idle || h.stream.connect_req == NULL);
 }
 static void close_cb(uv_handle_t* hd) { (void) hd; if (!g_quiet) printf("x "); }
 static void prep_cb(uv_prepare_t* p) { (void) p; }
@@ -223,6 +225,7 @@ static void do_ops(char* ops, int in_cb) {
           break;
         }
         if (tok[1] == 'l') a.sin_port = htons(lport);
+        else if (tok[1] == 'h') { a.sin_port = htons(hport); g_slow = 1; }   /* accept queue full: the SYN is dropped, the handshake stays incomplete */
         else a.sin_port = htons(cport);   /* bound by the harness, never listening: refused, and nobody else can take it */
         q = &reqs[nreq]; q->id = nreq; nreq++;
         { int a0 = arrivals(); unclaimed += a0; fprintf(vlog, "s%d,%s,%d ", q->id, tok, a0); }
@@ -270,20 +273,22 @@ static void do_ops(char* ops, int in_cb) {
       }
       break;
     case 'W':
-      if (aux_allowed() && !g_now && uv_is_writable(&h.stream)) {
+      /* only while a connect is pending (the request is queued) or on a stream that has been connected (the
+       * write succeeds): a failing write would linger in error state, which is C05's business */
+      if (aux_allowed(0) && !g_now && uv_is_writable(&h.stream) && (h.stream.connect_req != NULL || ever_connected) && !in_wcb) {   /* and not from a write callback */
         static char wb = 'w'; uv_buf_t b = uv_buf_init(&wb, 1); uv_write_t* w = malloc(sizeof *w);
         if (uv_write(w, &h.stream, &b, 1, aux_write_cb) == 0) aux_out++; else free(w);
       }
       break;
     case 'H':
-      if (aux_allowed() && !g_now && uv_is_writable(&h.stream)) {
+      if (aux_allowed(0) && !g_now && uv_is_writable(&h.stream)) {
         uv_shutdown_t* sh = malloc(sizeof *sh);
         g_now = 1;
         if (uv_shutdown(sh, &h.stream, aux_shutdown_cb) == 0) aux_out++; else free(sh);
       }
       break;
     case 'G':
-      if (aux_allowed()) { g_now = 1; uv_read_start(&h.stream, aux_alloc_cb, aux_read_cb); }
+      if (aux_allowed(1)) { g_now = 1; uv_read_start(&h.stream, aux_alloc_cb, aux_read_cb); }
       break;
     case 'C':
       if (!g_closing) { g_closing = 1; fprintf(vlog, "x%d ", arrivals()); uv_close(&h.handle, close_cb); }
@@ -292,7 +297,7 @@ static void do_ops(char* ops, int in_cb) {
       if (in_cb) break;
       g_watch_fd = -1;
       if (!g_closing) { uv_os_fd_t fd = -1; if (uv_fileno(&h.handle, &fd) == 0) g_watch_fd = fd; }
-      if (g_watch_fd >= 0) { struct pollfd pf; pf.fd = g_watch_fd; pf.events = POLLOUT; pf.revents = 0; poll(&pf, 1, 1000); }
+      if (g_watch_fd >= 0) { struct pollfd pf; pf.fd = g_watch_fd; pf.events = POLLOUT; pf.revents = 0; poll(&pf, 1, g_slow ? 0 : 1000); }
       saw_event = 0;
       uv_run(&loop, UV_RUN_NOWAIT);
       fprintf(evlog, "%d ", saw_event);
@@ -326,7 +331,7 @@ static void run_connect_case(char** sec) {
   slog = open_memstream(&slog_b, &slog_n); clog_ = open_memstream(&clog_b, &clog_n);
   glog = open_memstream(&glog_b, &glog_n); evlog = open_memstream(&ev_b, &ev_n);
   vlog = open_memstream(&vlog_b, &vlog_n);
-  nreq = 0; g_quiet = 0; g_closing = 0; in_call = 0; g_watch_fd = -1; aux_out = 0; g_now = 0; ever_connected = 0;
+  nreq = 0; g_quiet = 0; g_closing = 0; in_call = 0; g_watch_fd = -1; aux_out = 0; g_now = 0; ever_connected = 0; g_slow = 0; in_wcb = 0;
   uv_loop_init(&loop);
   uv_prepare_init(&loop, &keepalive); uv_prepare_start(&keepalive, prep_cb);
   if (g_kind == 't') uv_tcp_init(&loop, &h.tcp); else uv_pipe_init(&loop, &h.pipe, 0);
@@ -452,6 +457,15 @@ int main(int argc, char** argv) {
   memset(&ua, 0, sizeof ua); ua.sun_family = AF_UNIX; strcpy(ua.sun_path, upath);
   unlink(upath);
   if (bind(ulistener, (struct sockaddr*) &ua, sizeof ua) || listen(ulistener, 128)) { fprintf(stderr, "no unix listener\n"); return 2; }
+  /* a TCP listener with backlog 0 whose accept queue the harness fills and never drains: further SYNs are
+   * dropped (and retransmitted after about a second), so a connect to it stays in progress */
+  { int hl = socket(AF_INET, SOCK_STREAM, 0); struct sockaddr_in b; socklen_t bl = sizeof b; int k;
+    memset(&b, 0, sizeof b); b.sin_family = AF_INET; b.sin_addr.s_addr = htonl(INADDR_LOOPBACK);
+    if (bind(hl, (struct sockaddr*) &b, sizeof b) || listen(hl, 0) || getsockname(hl, (struct sockaddr*) &b, &bl)) { fprintf(stderr, "no loopback\n"); return 2; }
+    hport = ntohs(b.sin_port);
+    for (k = 0; k < 3; k++) { int c = socket(AF_INET, SOCK_STREAM | SOCK_NONBLOCK, 0); connect(c, (struct sockaddr*) &b, sizeof b); }
+    usleep(20000);
+  }
   /* a listening unix socket whose backlog is and stays full: further connects get EAGAIN */
   snprintf(fpath, sizeof fpath, "%s/full%d", g_dir, (int) getpid());
   unlink(fpath);
